@@ -470,6 +470,36 @@ func runC13(c *runCfg) error {
 			}
 		}
 	}
+	// a COPY handler that fails with (or wraps) one of the well-known reader/connection errors while the connection
+	// is alive: reported like any other error — one ErrorResponse, one ReadyForQuery — and the session goes on
+	for _, e := range []*errT{{kind: "base", a: []byte("EOF")}, {kind: "base", a: []byte("unexpected EOF")}, {kind: "base", a: []byte("use of closed network connection")},
+		{kind: "wrap", a: []byte("copy: "), inner: &errT{kind: "base", a: []byte("unexpected EOF")}},
+		{kind: "code", a: []byte("57014"), inner: &errT{kind: "wrap", a: []byte("reading row 2: "), inner: &errT{kind: "base", a: []byte("EOF")}}}} {
+		for _, ext := range []bool{false, true} {
+			for _, reads := range []int{0, 2} {
+				cfg := mkCfg(2, 1, reads, "err", false, nil)
+				cfg.parse[0].stmts[0].rerr = e
+				var msgs [][]byte
+				if ext {
+					msgs = append(msgs, mParse(nil, []byte("copy"), 0), mBind(nil, nil, nil, nil, nil), mExecute(nil, 0))
+				} else {
+					msgs = append(msgs, mQuery([]byte("copy")))
+				}
+				msgs = append(msgs, mCopyData([]byte("ab")), mCopyData([]byte("cd")), mCopyDone(), mSync(), mQuery([]byte("select 1")), mQuery([]byte("copy")), mSync())
+				emitSession(c, lockCase(id, "eof_like_error", cfg, stdStartup, msgs))
+				id++
+			}
+		}
+	}
+	// wide tables: the CopyInResponse announces one format code per declared column, whatever the count
+	for _, ncols := range []int{8, 16, 31, 32, 33, 63, 64, 65, 96, 97, 100, 255, 256, 257, 1000, 1600} {
+		for _, f := range []int{0, 1} {
+			cfg := mkCfg(ncols, f, 2, "last", true, complete)
+			emitSession(c, lockCase(id, "wide_copy", cfg, stdStartup, [][]byte{mQuery([]byte("copy")), mCopyData([]byte("x")), mCopyDone(), mSync(),
+				mParse(nil, []byte("copy"), 0), mBind(nil, nil, nil, nil, []int{1 - f}), mExecute(nil, 0), mCopyFail([]byte("no")), mSync()}))
+			id++
+		}
+	}
 	// zero columns: CopyIn must fail; stray copy messages outside copy mode
 	emitSession(c, lockCase(id, "nocols", mkCfg(0, 0, 1, "last", true, nil), stdStartup, [][]byte{mQuery([]byte("copy")), mCopyData([]byte("x")), mCopyDone(), mSync()}))
 	id++
